@@ -279,7 +279,7 @@ fn keep_static(g: &G, props: &[String], edges: &[String], id: u32, info: &dyn Ve
             st.stat.borrow_mut()[0] += 1;
             if let Some(x) = g.prop(id, p) {
                 let ok = cand_contains(&c, &x);
-                if st.hints.borrow().len() < 400 { st.hints.borrow_mut().push(json!({"kind":"static","site": site,"vid": crate::val::idn(&info.vid()),"prop": p,"cand": cand_json(&c),"vertex": id,"value": from_fv(&x),"kept": ok})); }
+                if st.hints.borrow().len() < 1500 { st.hints.borrow_mut().push(json!({"kind":"static","site": site,"vid": crate::val::idn(&info.vid()),"prop": p,"cand": cand_json(&c),"vertex": id,"value": from_fv(&x),"kept": ok})); }
                 if !ok { return false; }
             }
         }
@@ -291,7 +291,7 @@ fn keep_static(g: &G, props: &[String], edges: &[String], id: u32, info: &dyn Ve
                 let dest = einfo.destination().clone();
                 let ns = g.nbrs(id, e, einfo.parameters());
                 let ok = ns.into_iter().any(|z| keep_static(g, props, edges, z, &dest, depth - 1, st, site));
-                if st.hints.borrow().len() < 400 { st.hints.borrow_mut().push(json!({"kind":"mandatory","site": site,"vid": crate::val::idn(&info.vid()),"edge": e,"vertex": id,"kept": ok})); }
+                if st.hints.borrow().len() < 1500 { st.hints.borrow_mut().push(json!({"kind":"mandatory","site": site,"vid": crate::val::idn(&info.vid()),"edge": e,"vertex": id,"kept": ok})); }
                 if !ok { return false; }
             }
         }
@@ -335,7 +335,7 @@ impl<'a> Adapter<'a> for Pruning {
                 for (pn, c) in &cand {
                     if let Some(x) = me.inner.g.prop(v.0, pn) {
                         let ok = cand_contains(c, &x);
-                        if me.st.hints.borrow().len() < 400 { me.st.hints.borrow_mut().push(json!({"kind":"dynamic","site": site,"vid": crate::val::idn(&dest.vid()),"prop": pn,"cand": cand_json(c),"vertex": v.0,"src": src,"value": from_fv(&x),"kept": ok})); }
+                        if me.st.hints.borrow().len() < 1500 { me.st.hints.borrow_mut().push(json!({"kind":"dynamic","site": site,"vid": crate::val::idn(&dest.vid()),"prop": pn,"cand": cand_json(c),"vertex": v.0,"src": src,"value": from_fv(&x),"kept": ok})); }
                         if !ok { k = false; }
                     }
                 }
